@@ -370,6 +370,11 @@ func inAssume(e *Exec, s *State, f *Frame, fn *ssa.Function, args []Value, resul
 func inAssert(e *Exec, s *State, f *Frame, fn *ssa.Function, args []Value, result ssa.Value) (stepResult, bool) {
 	c := args[0].(*Term)
 	id := strArg(args[1])
+	for _, o := range e.h.Spec.NotOf {
+		if o == id {
+			return e.ret(f, result, TupleV{})
+		}
+	}
 	e.h.obligation(e, s, c, id, false)
 	return e.ret(f, result, TupleV{})
 }
@@ -1311,13 +1316,36 @@ func (e *Exec) builtin(s *State, f *Frame, name string, args []Value, result ssa
 		}
 		m := s.heap[mv.Obj].(*MapObj)
 		nm := &MapObj{KT: m.KT, VT: m.VT}
-		for _, en := range m.Entries {
-			c := valueEq(args[1], en.K)
-			if c.IsTrue() {
+		// the keys of a map are pairwise distinct on this path: when the key is
+		// syntactically one of them (the delete-while-ranging idiom) the other
+		// entries need not be compared
+		hit := -1
+		for i, en := range m.Entries {
+			if valueEq(args[1], en.K).IsTrue() {
+				hit = i
+				break
+			}
+		}
+		for i, en := range m.Entries {
+			if i == hit {
 				continue
 			}
-			if !c.IsFalse() {
-				panic(unsupported("delete with symbolic key"))
+			if hit < 0 {
+				c := valueEq(args[1], en.K)
+				if c.IsTrue() {
+					continue
+				}
+				if !c.IsFalse() {
+					// decided by the path condition, or not supported
+					if !e.feasible(s, c) {
+						nm.Entries = append(nm.Entries, en)
+						continue
+					}
+					if !e.feasible(s, Not(c)) {
+						continue
+					}
+					panic(unsupported("delete with symbolic key"))
+				}
 			}
 			nm.Entries = append(nm.Entries, en)
 		}
